@@ -102,7 +102,8 @@ def _summary(spec, baseline, deviations, ex):
     return {"spec": spec.name, "baseline": baseline, "deviations": sorted(deviations.items(), key=repr),
             "violations": list(ex.violations), "draws": list(ex.policy.draws), "outcome": ex.outcome(),
             "commits": len(ex.commits), "legs": ex.legs, "ended": ex.ended,
-            "handlers": {k: v for k, v in ex.stats.items() if not k.startswith(("c17_", "c04_"))},
+            "handlers": {k: v for k, v in ex.stats.items() if not k.startswith(("c17_", "c04_", "c01_"))},
+            "c01": {k: v for k, v in ex.stats.items() if k.startswith("c01_")},
             "c04_thinned": ex.stats.get("c04_thinned_events", 0),
             "writes": len(ex.writes), "c17_samples": ex.stats.get("c17_samples", 0),
             "not_ended": ex.stats.get("c17_not_ended", 0), "final_time": None if ex.last_time is None else ex.last_time[0] + ex.last_time[1]}
@@ -233,6 +234,8 @@ def _account(stats, ps, r, bad):
     stats["c17_samples"] = stats.get("c17_samples", 0) + r.get("c17_samples", 0)
     stats["not_ended"] = stats.get("not_ended", 0) + r.get("not_ended", 0)
     stats["c04_thinned"] = stats.get("c04_thinned", 0) + r.get("c04_thinned", 0)
+    for k, v in (r.get("c01") or {}).items():
+        stats[k] = stats.get(k, 0) + v
     if r["violations"]:
         bad.append(r)
 
